@@ -232,7 +232,8 @@ def run_hypothesis(rec, n, seed, tier):
               derandomize=False, report_multiple_bugs=False,
               suppress_health_check=[HealthCheck.too_slow,
                                      HealthCheck.data_too_large,
-                                     HealthCheck.filter_too_much],
+                                     HealthCheck.filter_too_much,
+                                     HealthCheck.large_base_example],
               phases=[Phase.generate, Phase.shrink])
     @given(strat)
     def test(case):
